@@ -228,7 +228,11 @@ fn check_source(v: TensorView<i32>, m: &Model, desc: &str, cx: &mut Ctx) {
 fn enumerate() {
     let mut cx = Ctx { found: 0, cases: 0 };
     let mut shapes: Vec<Vec<usize>> = Vec::new();
-    for a in 0..=3 { shapes.push(vec![a]); for b in 0..=3 { shapes.push(vec![a, b]); for c in 0..=3 { shapes.push(vec![a, b, c]); } } }
+    // under Miri (unit U-xform-miri: undefined-behaviour check of the same code) the domain is smaller
+    let max = if cfg!(miri) { 2 } else { 3 };
+    for a in 0..=max { shapes.push(vec![a]); for b in 0..=max { shapes.push(vec![a, b]); for c in 0..=max {
+        if cfg!(miri) && (a * b * c == 0 || (a, b, c) == (1, 1, 1)) { continue; }
+        shapes.push(vec![a, b, c]); } } }
     for shape in shapes {
         let n: usize = shape.iter().product();
         let t = Tensor::<i32>::from_data(shape.as_slice(), (0..n as i32).collect::<Vec<_>>());
@@ -237,6 +241,7 @@ fn enumerate() {
         let desc = format!("shape={shape:?}");
         check_source(t.view(), &m, &desc, &mut cx);
         for p in perms(nd).into_iter().skip(1) {
+            if cfg!(miri) && p != (0..nd).rev().collect::<Vec<_>>() { continue; }
             check_source(t.permuted(&p), &m.permuted(&p), &format!("{desc} permuted={p:?}"), &mut cx);
         }
         for axis in 0..nd {
@@ -279,6 +284,7 @@ fn enumerate() {
     }
     // larger sources that reach the blocked transpose in copy.rs (inner stride a multiple of 16, >= 32)
     for (shape, perm) in [(vec![32usize, 33], vec![1usize, 0]), (vec![3, 48, 32], vec![0, 2, 1]), (vec![64, 16], vec![1, 0]), (vec![2, 2, 35, 32], vec![0, 1, 3, 2])] {
+        if cfg!(miri) && shape.len() != 2 { continue; }
         let n: usize = shape.iter().product();
         let t = Tensor::<i32>::from_data(shape.as_slice(), (0..n as i32).collect::<Vec<_>>());
         let m = Model { shape: shape.clone(), data: (0..n as i32).collect() };
